@@ -433,7 +433,7 @@ func runFrames(m *mon.M, pool []*testKey) {
 			fast = append(fast, k)
 		}
 	}
-	total := m.N(30000, 2000000)
+	total := m.N(30000, 600000)
 	m.Cases("frames", total, func(i int64, r *mrand.Rand) {
 		if i%50 == 7 {
 			oversizeCase(m, i, r)
